@@ -193,6 +193,28 @@ func zzConsistent(s *Schema) string {
 		}
 		return ""
 	}
+	for _, d := range s.Directives() {
+		if d == nil {
+			return "nil directive in the schema"
+		}
+		if !zzValidName(d.Name) {
+			return "illegal directive name"
+		}
+		for _, a := range d.Args {
+			if a == nil || !zzValidName(a.Name()) {
+				return "illegal argument name on directive " + d.Name
+			}
+			if a.Type == nil || !zzNoDoubleNonNull(a.Type) {
+				return "malformed argument type on directive " + d.Name
+			}
+			if !zzIsInputKind(a.Type) {
+				return "argument @" + d.Name + "(" + a.Name() + ":) does not have an input type"
+			}
+			if !inMap(a.Type) {
+				return "directive argument type not in the type map"
+			}
+		}
+	}
 	for name, t := range tm {
 		switch x := t.(type) {
 		case *Object:
@@ -319,11 +341,17 @@ func zzConsistent(s *Schema) string {
 // ZZ_C11_config: NewSchema on a configuration with one injected malformation
 // (or none) returns an error or a consistent schema, and never panics.
 func ZZ_C11_config() {
-	defect := zzChoice("defect", 28)
+	defect := zzChoice("defect", 34)
 	thunks := zzChoice("thunks", 2) == 1
 	// route 0: everything supplied to NewSchema; 1..5: the object (directly, via a
 	// union, inside wrappers) or nil is appended to a schema built without it
 	route := zzChoice("route", 7)
+	// the application may have looked at the object's fields / interfaces (in
+	// either order) before the schema is built: lazily parked errors must survive
+	touch := zzChoice("touch", 3)
+	if defect >= 29 {
+		zzAssume(route == 0) // directive malformations concern NewSchema only
+	}
 	name2 := func(tag string) string { return zzString(tag, 2) } // arbitrary 2-byte name
 	color := NewEnum(EnumConfig{Name: "Color", Values: EnumValueConfigMap{"RED": &EnumValueConfig{Value: 0}}})
 	in := NewInputObject(InputObjectConfig{Name: "In", Fields: InputObjectConfigFieldMap{"a": &InputObjectFieldConfig{Type: Int}}})
@@ -335,7 +363,11 @@ func ZZ_C11_config() {
 		"self": &Field{Type: String, Args: FieldConfigArgument{"x": &ArgumentConfig{Type: Int}, "y": &ArgumentConfig{Type: NewNonNull(Int)}}},
 		"c":    &Field{Type: color, Args: FieldConfigArgument{"in": &ArgumentConfig{Type: in}}},
 	}
-	qFields := Fields{"node": &Field{Type: node}}
+	// an interface nobody implements, whose argument type is referenced nowhere else
+	loneIn := NewInputObject(InputObjectConfig{Name: "LoneIn", Fields: InputObjectConfigFieldMap{"a": &InputObjectFieldConfig{Type: Int}}})
+	lone := NewInterface(InterfaceConfig{Name: "Lone", Fields: Fields{"g": &Field{Type: String, Args: FieldConfigArgument{"k": &ArgumentConfig{Type: NewList(loneIn)}}}},
+		ResolveType: func(p ResolveTypeParams) *Object { return nil }})
+	qFields := Fields{"node": &Field{Type: node}, "lone": &Field{Type: lone}}
 	var schemaCfg SchemaConfig
 	var uni *Union
 	objName := "Obj"
@@ -398,6 +430,9 @@ func ZZ_C11_config() {
 			if defect == 24 {
 				return []*Interface{node, node} // the same interface declared twice
 			}
+			if defect == 28 {
+				return []*Interface{nil, node} // nil among the declared interfaces
+			}
 			return []*Interface{node}
 		})
 	} else {
@@ -405,6 +440,9 @@ func ZZ_C11_config() {
 		ocfg.Interfaces = []*Interface{node}
 		if defect == 24 {
 			ocfg.Interfaces = []*Interface{node, node}
+		}
+		if defect == 28 {
+			ocfg.Interfaces = []*Interface{nil, node}
 		}
 	}
 	var schema Schema
@@ -415,6 +453,14 @@ func ZZ_C11_config() {
 	orderMatters := route == 0 && !thunks && (defect == 0 || (defect >= 7 && defect <= 11) || defect == 24)
 	zzGuard("schema construction", func() {
 		obj := NewObject(ocfg)
+		switch touch {
+		case 1:
+			obj.Fields()
+			obj.Interfaces()
+		case 2:
+			obj.Interfaces()
+			obj.Fields()
+		}
 		switch defect {
 		case 5:
 			uni = NewUnion(UnionConfig{Name: "U", Types: []*Object{}, ResolveType: func(p ResolveTypeParams) *Object { return nil }})
@@ -483,6 +529,22 @@ func ZZ_C11_config() {
 		schemaCfg = SchemaConfig{Query: q, Types: []Type{obj}}
 		if defect == 16 {
 			schemaCfg.Query = nil
+		}
+		switch defect {
+		case 29: // output type as a directive argument
+			schemaCfg.Directives = append([]*Directive{NewDirective(DirectiveConfig{Name: "d", Locations: []string{DirectiveLocationField},
+				Args: FieldConfigArgument{"a": &ArgumentConfig{Type: node}}})}, SpecifiedDirectives...)
+		case 30: // nil argument configuration
+			schemaCfg.Directives = append([]*Directive{NewDirective(DirectiveConfig{Name: "d", Locations: []string{DirectiveLocationField},
+				Args: FieldConfigArgument{"a": nil}})}, SpecifiedDirectives...)
+		case 31: // nil directive
+			schemaCfg.Directives = append([]*Directive{nil}, SpecifiedDirectives...)
+		case 32: // argument without a type
+			schemaCfg.Directives = append([]*Directive{NewDirective(DirectiveConfig{Name: "d", Locations: []string{DirectiveLocationField},
+				Args: FieldConfigArgument{"a": &ArgumentConfig{Type: nil}}})}, SpecifiedDirectives...)
+		case 33: // arbitrary directive and argument names
+			schemaCfg.Directives = append([]*Directive{NewDirective(DirectiveConfig{Name: name2("dname"), Locations: []string{DirectiveLocationField},
+				Args: FieldConfigArgument{name2("daname"): &ArgumentConfig{Type: Int}}})}, SpecifiedDirectives...)
 		}
 		if orderMatters {
 			zzMapOrder(true, zzParam("D", 1))
